@@ -1262,7 +1262,13 @@ def c19_worker(item):
             import udiff
             return udiff.quote_name(b)
 
-        inside = ("a/" if strip == 1 else "x/a/" if strip == 2 else "") + "inside-%d.txt" % seed
+        inside_path = "inside-%d.txt" % seed
+        earlier = sorted(set(q for p_ in ws.patches[:pos] for o in p_.ops for q in (o.path, o.new_path)))
+        if earlier and r.random() < 0.4:
+            # a name that an earlier patch of the same push already touched (its file is loaded, maybe deleted, by then)
+            inside_path = r.choice(earlier)
+            res.count("inside-name-already-touched-by-an-earlier-patch")
+        inside = ("a/" if strip == 1 else "x/a/" if strip == 2 else "") + inside_path
         old_n, new_n = name, name
         if where == "old-only":
             new_n = inside
@@ -1639,6 +1645,15 @@ def c16_names_case(r, seed, binary, res, so=None, sn=None, only_workspace=False)
 
     setup(old, so)
     setup(new, sn)
+    new_tracked = False
+    if sn == "E" and r.random() < 0.4:
+        # the new name exists and the first patch changes it (so it is already loaded when the second patch is decided upon,
+        # while the old name is only on disk)
+        opm = wsgen.Op("modify", new, pre=content, post=content + b"l4 added by p1\n", pre_mode=0o644, post_mode=0o644)
+        opm.ctx = 1
+        ops1.append(opm)
+        tree1[new] = (opm.post, 0o644)
+        new_tracked = True
     # p1 always does something
     opk = wsgen.Op("modify", "keep/other.txt", pre=b"other\n", post=b"other\nmore\n", pre_mode=0o644, post_mode=0o644)
     ops1.append(opk)
@@ -1668,7 +1683,7 @@ def c16_names_case(r, seed, binary, res, so=None, sn=None, only_workspace=False)
         target_exists = tstate in ("E", "C")
     tree2 = dict(tree1)
     if target_exists:
-        tree2[target] = (b"fresh\nnote\n" if creating else b"l1\nL2\nl3\n", 0o644)
+        tree2[target] = (b"fresh\nnote\n" if creating else (b"l1\nL2\nl3\n" + (b"l4 added by p1\n" if (new_tracked and target == new) else b"")), 0o644)
     ws = wsgen.Workspace()
     ws.t0 = t0
     ws.patches = [p1, p2]
@@ -1940,6 +1955,8 @@ def c18_worker(item):
     cfg = wsgen.GenConfig(p_fail=0.5, max_patches=r.choice([1, 2, 4]), max_files=4, allow_special_names=False)
     cfg.p_long_last_line = r.choice([0.0, 0.0, 0.5])
     ws = wsgen.generate(seed, cfg)
+    if r.random() < 0.15 and wsgen.add_nested_emptying(ws, r):
+        res.count("shape:nested-directories-emptied")   # several directories to remove in one cleanup
     threads = r.choice([1, 1, 4])
     first = 0
     args = base_args(threads=threads, backup="always", verbosity="-q") + ["push", "-a"]
